@@ -19,7 +19,7 @@ func init() {
 			"(4) direction dispatch of BigU32 / BigU32s / U32BitTip: the reverse flag selects the R-iterator, GetN*/RGetN* pass false/true; (5) block membership: SetI64/SetU32 set a bit only under value/1024 == Start with bit value%1024, NewBigU32FromI64 and SetI64 use the same range guard, split (/1024, %1024) and iteration offset (Start*1024) use the same constant. " +
 			"NOT decided: full round-trip equality for every bitmap (follows from 1 with C08's iterator invariants, informally); the order in which the list forms visit their blocks (BigU32s: list order in both directions; U32BitTips: reversed list for the reverse form — an observation, not part of the statement).",
 		Assumptions: []string{"encoding/binary contracts", "len(Bit1024) == 16"},
-		Floors:      map[string]int{"C09.wire-form": 4, "C09.unmarshal-guards": 3, "C09.overflow-before-widening": 2, "C09.dispatch": 9, "C09.block-membership": 5},
+		Floors:      map[string]int{"C09.block-iteration": 8, "C09.wire-form": 4, "C09.unmarshal-guards": 3, "C09.overflow-before-widening": 2, "C09.dispatch": 9, "C09.block-membership": 5},
 		Run:         runC09,
 	})
 }
@@ -31,6 +31,18 @@ func runC09(c *Ctx) {
 
 	// (1) + (2) Marshal / Unmarshal
 	c.checkBitmapWire(cfg)
+
+	// (2b) the block bitmaps (BigU32, U32BitTip) iterate through the 1024-bit iterators: exactly min(n, Len)
+	// members, each block handed the remaining count and the advancing write position (rule shared with C08)
+	if b1024 := c.namedType(rel, "Bit1024"); b1024 != nil {
+		x := &bitCtx{c: c, pfx: "C09"}
+		for i := 0; i < b1024.NumMethods(); i++ {
+			m := b1024.Method(i)
+			if mm := iterNameRe.FindStringSubmatch(m.Name()); mm != nil {
+				x.checkBlockIter(c.Prog.FuncValue(m), mm[1] == "R")
+			}
+		}
+	}
 
 	// (3) overflow before widening, over every function of the package
 	widened, bad := map[string]bool{}, map[string]bool{}
